@@ -3,7 +3,7 @@
      for every program p, every keyspace h, the reads of [run as_is init p] equal those of a sorted map
      updated by the write operations of p, with rotate / flush / compaction steps changing nothing.
    Proved parts below are named ..._partial. *)
-From FJ Require Import Bytes Codec Lsm LsmP TxP MapP.
+From FJ Require Import Bytes Codec Lsm LsmP TxP MapP OrderP.
 
 (* a write (insert / remove / batch item) with a seqno above everything in the active memtable: the point
    read of the written key returns the written value (absence for a tombstone); other keys are untouched *)
@@ -22,5 +22,35 @@ Proof. exact gc_key_value. Qed.
 (* rotation, flush registration, version-history maintenance never change reads at an instant above their
    parameters: see C05_reads_frozen (props/C05.v) *)
 
+(* point reads agree with scans: a point read returns the first hit in source order (active memtable, sealed memtables,
+   tables), a scan lets the highest seqno win; they coincide for key k at instant I whenever the sources are ordered by
+   recency for that key.  Without the premise they differ (what replaying covered journal records used to produce). *)
+Theorem C01_point_read_agrees_with_scan_partial : forall (t : tree) (v : version) (k : bytes) (I : N),
+  recency_ordered k I (mem_of t (v_active v) :: map (mem_of t) (v_sealed v) ++ [v_tables v]) ->
+  v_get_ent t v k I = newest k I (v_all t v).
+Proof. exact point_read_agrees_with_scan. Qed.
+
+(* ... and the premise is an invariant: for EVERY sequence of tree operations (memtable appends, rotation, flush,
+   compaction with any filter, clear, ingestion registration, version-history maintenance) that respects the write
+   discipline — an appended entry is newer than everything sealed or in tables; ingestion registers only after the
+   memtables were flushed — the point read of every key at every instant equals the entry the scan shows for it *)
+Theorem C01_reads_agree : forall (ops : list tree_op) (k : bytes) (I : N),
+  run_disciplined tree_init ops ->
+  let t := fold_left apply_top ops tree_init in
+  v_get_ent t (latest t) k I = newest k I (v_all t (latest t)).
+Proof. exact reads_agree. Qed.
+
+Theorem C01_reads_agree_example : run_disciplined tree_init order_example.
+Proof. exact order_example_ok. Qed.
+
+Theorem C01_shadowing_refuted_without_recency :
+  value_of (v_get_ent shadow_tree (latest shadow_tree) [107] 10) = Some [1] /\
+  value_of (newest [107] 10 (v_all shadow_tree (latest shadow_tree))) = Some [2].
+Proof. exact shadow_disagrees. Qed.
+
 Print Assumptions C01_write_point_read_partial.
 Print Assumptions C01_gc_keeps_newest_partial.
+Print Assumptions C01_point_read_agrees_with_scan_partial.
+Print Assumptions C01_shadowing_refuted_without_recency.
+Print Assumptions C01_reads_agree.
+Print Assumptions C01_reads_agree_example.
